@@ -160,15 +160,21 @@ def teardown_steps(src):
             elif m and not w.startswith('let_='):
                 binds[m.group(1)] = m.group(2)
             elif w.startswith('for'):
-                if re.fullmatch(r'for\(_,(\w+)\)inunimock\.shared_state\.fn_mockers\.iter\(\)\{\1\.verify\(&mut(\w+)\);?\}', w) and \
+                if re.fullmatch(r'for(?:\(_,(\w+)\)inunimock\.shared_state\.fn_mockers\.iter\(\)|(\w+)inunimock\.shared_state\.fn_mockers\.values\(\))\{(?:\1|\2)\.verify\(&mut(\w+)\);?\}', w) and \
                         binds.get(re.fullmatch(r'.*verify\(&mut(\w+)\);?\}', w).group(1)) == 'Vec::new()':
                     saw_loop = True
                 else:
                     raise Unrecognised(f'loop `{t[:60]}`')
+            elif saw_loop and re.fullmatch(r'if!(\w+)\.is_empty\(\)\{returnErr\(\1\);?\}', w) and binds.get(re.fullmatch(r'if!(\w+)\..*', w).group(1)) == 'Vec::new()':
+                pending_tail.append(True)
+            elif pending_tail and w == 'Ok(())':
+                steps.append('.verify')
             elif w.startswith('if'):
                 steps.append(gate(t))
             else:
                 raise Unrecognised(f'statement `{t[:60]}`')
+
+    pending_tail = []
 
     def subst(c):
         for k, v in binds.items():
@@ -224,7 +230,7 @@ def dsteps(body, selfname='self'):
             out.append('.teardownIfVerifyInDrop')
         elif re.fullmatch(r'if!self\.torn_down&&self\.verify_in_drop\{teardown::teardown_panic\((&mut)?self\);?\}', w):
             out += ['.retIfTornDown', '.teardownIfVerifyInDrop']
-        elif re.fullmatch(r'if!self\.original_instance\{panic!\(.*\);?\}', w):
+        elif re.fullmatch(r'if!self\.original_instance\{panic!\(.*\);?\}', w) or re.fullmatch(r'assert!\(self\.original_instance,".*"\)', w):
             out.append('.panicIfNotOriginal')
         elif re.fullmatch(r'teardown::teardown_panic\(&mutself\)', w):
             out.append('.teardown')
@@ -523,6 +529,198 @@ def slot_alloc(src):
     return f'if {cond} then ({env["lo"]}, {env["hi"]}, {env["cur"]}) else (0, 0, cur)'
 
 
+# ------------------------------------------------------------------ src/build.rs: what each quantifier method does to the pattern builder
+EXACTNESS = {'Exact': '.exact', 'AtLeast': '.atLeast', 'AtLeastPlusOne': '.atLeastPlusOne'}
+
+
+def impl_block(src, header_re):
+    m = re.search(header_re, src)
+    if not m:
+        raise Unrecognised(f'`{header_re}` not found')
+    i = src.index('{', m.end() - 1)
+    # skip a where clause: the block opens at the first `{` at angle/paren depth 0 after the header
+    return src[i + 1:close(src, i) - 1]
+
+
+def quantify_call(body):
+    calls = re.findall(r'\.quantify\(([^,()]+),(?:counter::)?Exactness::(\w+)\)', ws(body))
+    if len(calls) != 1:
+        raise Unrecognised(f'{len(calls)} quantify calls')
+    arg, ex = calls[0]
+    if ex not in EXACTNESS:
+        raise Unrecognised(f'exactness {ex}')
+    if arg.isdigit():
+        t = f'some {arg}'
+    elif arg == 'times':
+        t = 'none'
+    else:
+        raise Unrecognised(f'quantify argument `{arg}`')
+    return t, EXACTNESS[ex]
+
+
+def conversion(body):
+    w = ws(body)
+    once, multi = w.count('.into_return_once()'), w.count('.into_return()')
+    if once + multi != 1:
+        raise Unrecognised('conversion of the return value')
+    return 'true' if once else 'false'
+
+
+def arith(e, names):
+    """`a + b`, literals, `x.max(k)`, `x.min(k)` over the given names -> Lean"""
+    e = ws(e)
+    toks = re.findall(r'[A-Za-z_][\w\.]*?(?=\.max\(|\.min\(|[+()]|$)|\.max\(\d+\)|\.min\(\d+\)|\d+|[+()]', e)
+    if ''.join(toks) != e:
+        raise Unrecognised(f'expression `{e}`')
+    out = ''
+    for t in toks:
+        if t in names:
+            out += f'({names[t]})'
+        elif t.startswith('.max('):
+            out = f'(Nat.max ({out}) {t[5:-1]})'
+        elif t.startswith('.min('):
+            out = f'(Nat.min ({out}) {t[5:-1]})'
+        elif t.isdigit() or t in '+()':
+            out += f' {t} '
+        else:
+            raise Unrecognised(f'operand `{t}`')
+    return out
+
+
+def builder_table(build_src, counter_src):
+    T = {}
+    qrv = impl_block(build_src, r"impl<'p,\s*F,\s*T,\s*O>\s*QuantifyReturnValue<'p,\s*F,\s*T,\s*O>")
+    for name, key in (('once', 'qrvOnce'), ('n_times', 'qrvNTimes'), ('at_least_times', 'qrvAtLeast')):
+        b = fn_body(qrv, r'pub\s+fn\s+' + name + r'\s*\(')
+        t, ex = quantify_call(b)
+        T[key] = f'({conversion(b)}, {t}, {ex})'
+    c = ws(fn_body(impl_block(build_src, r"impl<F,\s*T,\s*O>\s*Clause\s+for\s+QuantifyReturnValue<"), r'fn\s+deconstruct\s*\('))
+    if c.rstrip(';') != 'self.once().deconstruct(sink)':
+        raise Unrecognised('Clause for QuantifyReturnValue')
+    T['qrvClauseViaOnce'] = 'true'
+    d = fn_body(impl_block(build_src, r"impl<F,\s*T,\s*O>\s*Drop\s+for\s+QuantifyReturnValue<"), r'fn\s+drop\s*\(')
+    if not re.fullmatch(r'ifletSome\((\w+)\)=self\.return_value\.take\(\)\{self\.wrapper\.push_returner_result\(\1\.into_return(_once)?\(\)\.map\(\|r\|r\.into_returner\(\)\)\);?\}', ws(d)):
+        raise Unrecognised('Drop for QuantifyReturnValue')
+    T['qrvDropSingleUse'] = conversion(d)
+    q = impl_block(build_src, r"impl<'p,\s*F,\s*O>\s*Quantify<'p,\s*F,\s*O>")
+    for name, key in (('once', 'qOnce'), ('n_times', 'qNTimes'), ('at_least_times', 'qAtLeast')):
+        t, ex = quantify_call(fn_body(q, r'pub\s+fn\s+' + name + r'\s*\('))
+        T[key] = f'({t}, {ex})'
+    qc = fn_body(impl_block(build_src, r"impl<F,\s*O>\s*Clause\s+for\s+Quantify<"), r'fn\s+deconstruct\s*\(')
+    st = live(statements(qc))
+    if len(st) != 2 or not ws(st[1]).startswith('sink.push(F::info(),self.wrapper.into_owned())'):
+        raise Unrecognised('Clause for Quantify')
+    m = re.fullmatch(r'if(.*?)\{(.*)\}', ws(st[0]))
+    if not m:
+        raise Unrecognised('Clause for Quantify: guard')
+    t, ex = quantify_call(m.group(2))
+    if t == 'none':
+        raise Unrecognised('Clause for Quantify: count')
+    if m.group(1) == 'self.wrapper.inner().pattern_match_mode==PatternMatchMode::InOrder':
+        T['qClauseOrdered'], T['qClauseUnordered'] = f'some ({t[5:]}, {ex})', 'none'
+    elif m.group(1) == 'self.wrapper.inner().pattern_match_mode==PatternMatchMode::InAnyOrder':
+        T['qClauseOrdered'], T['qClauseUnordered'] = 'none', f'some ({t[5:]}, {ex})'
+    else:
+        raise Unrecognised(f'Clause for Quantify: condition `{m.group(1)}`')
+    th = ws(fn_body(impl_block(build_src, r"impl<'p,\s*F,\s*O,\s*R>\s*QuantifiedResponse<'p,\s*F,\s*O,\s*R>"), r'pub\s+fn\s+then\s*\('))
+    m = re.match(r'self\.wrapper\.inner_mut\(\)\.count_expectation\.add_to_minimum\((\d+),(?:counter::)?Exactness::(\w+)\);DefineMultipleResponses\{', th)
+    if not m or m.group(2) not in EXACTNESS:
+        raise Unrecognised('QuantifiedResponse::then')
+    T['thenAdd'] = f'({m.group(1)}, {EXACTNESS[m.group(2)]})'
+    # DynBuilderWrapper::quantify and CallCountExpectation::add_to_minimum
+    qb = live(statements(fn_body(build_src, r'pub\s+fn\s+quantify\s*\(&mut\s+self,\s*times:\s*usize,\s*exactness:\s*counter::Exactness\)')))
+    delta = idx = None
+    for t in qb:
+        w = ws(t).rstrip(';')
+        if w == 'letbuilder=self.inner_mut()':
+            continue
+        m = re.fullmatch(r'builder\.count_expectation\.add_to_minimum\((.*),exactness\)', w)
+        if m and delta is None:
+            delta = arith(m.group(1), {'times': 'times'})
+            continue
+        m = re.fullmatch(r'builder\.current_response_index\+=(.*)', w)
+        if m and idx is None:
+            idx = arith(m.group(1), {'times': 'times'})
+            continue
+        raise Unrecognised(f'quantify: `{t[:60]}`')
+    if delta is None or idx is None:
+        raise Unrecognised('quantify: shape')
+    am = live(statements(fn_body(counter_src, r'pub\s+fn\s+add_to_minimum\s*\(&mut\s+self,\s*delta:\s*usize,\s*exactness:\s*Exactness\)')))
+    newmin = None
+    sets = False
+    for t in am:
+        w = ws(t).rstrip(';')
+        m = re.fullmatch(r'self\.minimum\+=(.*)', w)
+        if m and newmin is None:
+            newmin = f'min + ({arith(m.group(1), {"delta": "delta"})})'
+            continue
+        m = re.fullmatch(r'self\.minimum=(.*)', w)
+        if m and newmin is None:
+            newmin = arith(m.group(1), {'delta': 'delta', 'self.minimum': 'min'})
+            continue
+        if w == 'self.exactness=exactness':
+            sets = True
+            continue
+        raise Unrecognised(f'add_to_minimum: `{t[:60]}`')
+    if newmin is None or not sets:
+        raise Unrecognised('add_to_minimum: shape')
+    T['addToMinimum'] = newmin
+    T['quantifyDelta'] = delta
+    T['quantifyIdx'] = f'idx + ({idx})'
+    return T
+
+
+BUILDER_FALLBACK = {
+    'qrvOnce': '(true, some 1, .exact)', 'qrvNTimes': '(false, none, .exact)', 'qrvAtLeast': '(false, none, .atLeast)',
+    'qrvClauseViaOnce': 'true', 'qrvDropSingleUse': 'true',
+    'qOnce': '(some 1, .exact)', 'qNTimes': '(none, .exact)', 'qAtLeast': '(none, .atLeast)',
+    'qClauseOrdered': 'some (1, .exact)', 'qClauseUnordered': 'none', 'thenAdd': '(0, .atLeastPlusOne)',
+    'addToMinimum': 'min + ((delta))', 'quantifyDelta': '(times)', 'quantifyIdx': 'idx + ((times))',
+}
+
+
+def emit_builder(root):
+    out = os.environ.get('VERIF_BUILDER_OUT') or os.path.join(os.path.dirname(OUT), 'Builder.lean')
+    try:
+        T = builder_table(strip_comments(open(os.path.join(root, 'build.rs')).read()), strip_comments(open(os.path.join(root, 'counter.rs')).read()))
+        ok, note = True, ''
+    except (Unrecognised, ValueError, IndexError) as e:
+        T, ok, note = dict(BUILDER_FALLBACK), False, str(e)
+    L = ['import Unimock.Model.Core',
+         '/-! GENERATED by tools/translate_control.py from /repo/src/build.rs and /repo/src/counter.rs — do not edit. -/',
+         'namespace Unimock.Generated',
+         f'def recognised_builder : Bool := {"true" if ok else "false"}',
+         '/-- `QuantifyReturnValue::{once, n_times, at_least_times}`: (value stored through the single-use conversion?, count given to `quantify` (`none` = the',
+         '    method\'s argument), exactness given to `quantify`) -/']
+    for k in ('qrvOnce', 'qrvNTimes', 'qrvAtLeast'):
+        L.append(f'def {k} : Bool × Option Nat × Exactness := {T[k]}')
+    L.append('/-- `Clause for QuantifyReturnValue` goes through `once()`; its `Drop` (a value never quantified) stores through the single-use conversion -/')
+    L.append(f'def qrvClauseViaOnce : Bool := {T["qrvClauseViaOnce"]}')
+    L.append(f'def qrvDropSingleUse : Bool := {T["qrvDropSingleUse"]}')
+    L.append('/-- `Quantify::{once, n_times, at_least_times}` -/')
+    for k in ('qOnce', 'qNTimes', 'qAtLeast'):
+        L.append(f'def {k} : Option Nat × Exactness := {T[k]}')
+    L.append('/-- `Clause for Quantify`: the implicit quantification of an unquantified response used as a clause, per match mode -/')
+    L.append(f'def qClauseOrdered : Option (Nat × Exactness) := {T["qClauseOrdered"]}')
+    L.append(f'def qClauseUnordered : Option (Nat × Exactness) := {T["qClauseUnordered"]}')
+    L.append('/-- `QuantifiedResponse::then` -/')
+    L.append(f'def thenAdd : Nat × Exactness := {T["thenAdd"]}')
+    L.append('/-- `CallCountExpectation::add_to_minimum` (it also overwrites the exactness); `DynBuilderWrapper::quantify`: the delta it passes on and the new response index -/')
+    L.append(f'def addToMinimum (min delta : Nat) : Nat := {T["addToMinimum"]}')
+    L.append(f'def quantifyDelta (times : Nat) : Nat := {T["quantifyDelta"]}')
+    L.append(f'def quantifyIdx (idx times : Nat) : Nat := {T["quantifyIdx"]}')
+    L.append('end Unimock.Generated')
+    text = '\n'.join(L) + '\n'
+    old = open(out).read() if os.path.exists(out) else None
+    if old != text:
+        tmp = out + f'.{os.getpid()}.tmp'
+        open(tmp, 'w').write(text)
+        os.replace(tmp, out)
+    if note:
+        print('unrecognised builder:', note)
+    return ok
+
+
 # ------------------------------------------------------------------ emit
 FALLBACK = {
     'teardown': '[.setTornDown, .dropHelper, .dropChain, .retOkIfNotOriginal, .retOkIfPanicking, .panicIfStrongGt 1, .panicIfOtherThread, .errIfReasons, .verify]',
@@ -621,9 +819,10 @@ def main():
         tmp = OUT + f'.{os.getpid()}.tmp'
         open(tmp, 'w').write(text)
         os.replace(tmp, OUT)
+    bok = emit_builder(ROOT)
     for n in notes:
         print('unrecognised', n)
-    print('translated', ' '.join(f'{k}={b(v[1])}' for k, v in got.items()))
+    print('translated', f'builder={b(bok)}', ' '.join(f'{k}={b(v[1])}' for k, v in got.items()))
 
 
 if __name__ == '__main__':
